@@ -116,17 +116,18 @@ func main() {
 }
 
 type rewriter struct {
-	fset    *token.FileSet
-	info    *types.Info
-	file    *ast.File
-	st      *stats
-	usedRT  bool
-	changed bool
-	n       int
-	skip    map[ast.Node]bool      // comm statements of select clauses and their top-level operation
-	recvs   map[*ast.CallExpr]bool // generated simrt.Recv calls (upgradable to Recv2)
-	rkind   map[*ast.RangeStmt]string
-	goConst map[*ast.GoStmt][]bool // argument is an untyped constant or nil: inline it
+	fset     *token.FileSet
+	info     *types.Info
+	file     *ast.File
+	st       *stats
+	usedRT   bool
+	changed  bool
+	n        int
+	skip     map[ast.Node]bool      // comm statements of select clauses and their top-level operation
+	recvs    map[*ast.CallExpr]bool // generated simrt.Recv calls (upgradable to Recv2)
+	rkind    map[*ast.RangeStmt]string
+	goConst  map[*ast.GoStmt][]bool // argument is an untyped constant or nil: inline it
+	goDirect map[*ast.GoStmt]bool   // the callee names a declared function (possibly generic, possibly of another package): nothing to evaluate at the go statement
 }
 
 func (r *rewriter) pos(n ast.Node) string { return r.fset.Position(n.Pos()).String() }
@@ -229,6 +230,7 @@ func (r *rewriter) rewrite() bool {
 	r.recvs = map[*ast.CallExpr]bool{}
 	r.rkind = map[*ast.RangeStmt]string{}
 	r.goConst = map[*ast.GoStmt][]bool{}
+	r.goDirect = map[*ast.GoStmt]bool{}
 
 	// imports
 	for _, is := range r.file.Imports {
@@ -279,6 +281,31 @@ func (r *rewriter) rewrite() bool {
 				}
 			}
 			r.goConst[x] = cs
+			fun := x.Call.Fun
+			for {
+				// f[T](...) / f[T1, T2](...): explicit instantiation
+				if ie, ok := fun.(*ast.IndexExpr); ok {
+					fun = ie.X
+				} else if il, ok := fun.(*ast.IndexListExpr); ok {
+					fun = il.X
+				} else {
+					break
+				}
+			}
+			switch f := fun.(type) {
+			case *ast.Ident:
+				if fo, ok := r.info.Uses[f].(*types.Func); ok && fo.Type().(*types.Signature).Recv() == nil {
+					r.goDirect[x] = true
+				}
+			case *ast.SelectorExpr:
+				if pkg, ok := f.X.(*ast.Ident); ok {
+					if _, isPkg := r.info.Uses[pkg].(*types.PkgName); isPkg {
+						if _, ok := r.info.Uses[f.Sel].(*types.Func); ok {
+							r.goDirect[x] = true
+						}
+					}
+				}
+			}
 		case *ast.CommClause:
 			if x.Comm != nil {
 				r.skip[x.Comm] = true
@@ -455,9 +482,16 @@ func (r *rewriter) goStmt(g *ast.GoStmt) ast.Stmt {
 		return &ast.ExprStmt{X: call(rt("Go"), fl)}
 	}
 	var lhs, rhs []ast.Expr
-	fn := r.fresh("gof")
-	lhs = append(lhs, id(fn))
-	rhs = append(rhs, cl.Fun)
+	var callee ast.Expr
+	if r.goDirect[g] {
+		// a declared function: a generic one cannot even be stored uninstantiated
+		callee = cl.Fun
+	} else {
+		fn := r.fresh("gof")
+		lhs = append(lhs, id(fn))
+		rhs = append(rhs, cl.Fun)
+		callee = id(fn)
+	}
 	var args []ast.Expr
 	consts := r.goConst[g]
 	for i, a := range cl.Args {
@@ -470,11 +504,14 @@ func (r *rewriter) goStmt(g *ast.GoStmt) ast.Stmt {
 		rhs = append(rhs, a)
 		args = append(args, id(nm))
 	}
-	inner := &ast.CallExpr{Fun: id(fn), Args: args, Ellipsis: cl.Ellipsis}
+	inner := &ast.CallExpr{Fun: callee, Args: args, Ellipsis: cl.Ellipsis}
 	if cl.Ellipsis != token.NoPos {
 		inner.Ellipsis = 1
 	}
 	lit := &ast.FuncLit{Type: &ast.FuncType{Params: &ast.FieldList{}}, Body: &ast.BlockStmt{List: []ast.Stmt{&ast.ExprStmt{X: inner}}}}
+	if len(lhs) == 0 {
+		return &ast.ExprStmt{X: call(rt("Go"), lit)}
+	}
 	return &ast.BlockStmt{List: []ast.Stmt{
 		define(lhs, rhs...),
 		&ast.ExprStmt{X: call(rt("Go"), lit)},
